@@ -74,8 +74,24 @@ def roundtrip(ctx, rep):
         ag = AGraph()
         ag.command_array = np.array(genome, dtype=int).reshape(-1, 3)
         L = ag.get_number_local_optimization_params()
-        consts = [rng.choice([-1, 1]) * round(rng.uniform(0.3, 3.0), rng.choice([1, 3, 6])) for _ in range(L)] if rng.random() < 0.8 \
-            else [rng.uniform(0.3, 3.0) for _ in range(L)]
+        style = rng.random()
+        if style < 0.65:
+            consts = [rng.choice([-1, 1]) * round(rng.uniform(0.3, 3.0), rng.choice([1, 3, 6])) for _ in range(L)]
+        elif style < 0.8:
+            consts = [rng.uniform(0.3, 3.0) for _ in range(L)]
+        else:
+            # every magnitude a float can have (exponent notation in both directions, sub-normal, next to an integer, next to zero)
+            def wide():
+                k = rng.random()
+                if k < 0.5:
+                    return rng.choice([-1, 1]) * rng.uniform(1, 10) * 10.0 ** rng.randrange(-30, 31)
+                if k < 0.7:
+                    return rng.choice([-1, 1]) * rng.uniform(1, 10) * 10.0 ** rng.choice([-320, -300, -150, -60, 60, 150, 300])
+                if k < 0.9:
+                    return float(np.nextafter(float(rng.randrange(-3, 4)), rng.choice([-10.0, 10.0])))
+                return rng.choice([5e-324, 2.2250738585072014e-308, 1.7976931348623157e308, 1e-13, 4e-13, 1e16, 123456789012345680.0])
+            consts = [wide() for _ in range(L)]
+            rep.count("roundtrip", "constants of every magnitude")
         ag.set_local_optimization_params(consts)
         s0, c0 = stack_of(ag)
         text = ag.get_formatted_string("sympy")
